@@ -407,7 +407,7 @@ pub fn run(ctx: Ctx) -> ! {
             }
         }
     }
-    let cats = catalogs(ctx.pick(2, 4));
+    let cats = catalogs(ctx.pick(3, 4));
     // (catalog index, as SingleZoneCatalog?)
     let mut items: Vec<(usize, bool)> = (0..cats.len()).map(|i| (i, false)).collect();
     for (i, cat) in cats.iter().enumerate() {
@@ -449,7 +449,7 @@ pub fn run(ctx: Ctx) -> ! {
     });
     ctx.set_extra("catalogs_tree", json!(cats.len()));
     ctx.set_extra("catalogs_single_zone", json!(items.len() - cats.len()));
-    ctx.set_extra("max_entries_per_catalog", json!(ctx.pick(2, 4)));
+    ctx.set_extra("max_entries_per_catalog", json!(ctx.pick(3, 4)));
     ctx.set_extra("requests_per_catalog", json!(reqs.len()));
     ctx.assume("qvlib::wire decoder is correct; TSIG-decorated requests are signed by qvlib::reftsig (self-tested against RFC vectors)");
     ctx.finish(
